@@ -363,8 +363,11 @@ Definition drop_constant_scenario (rows : table) : result table :=
 
 Definition tri_is_inc (t : list cell) : bool := match t with c :: _ => is_inc c | [] => false end.
 
-Definition to_wide_rows (t : list cell) : result table :=
-  let mn := meta_names t in let fn := field_names t in
+(* `fn`, `dn`, `ln`: the enumeration of the triangle's field names, detail names and loss-detail
+   names.  The code enumerates Python sets (`list(set)`): the order is arbitrary, so the model takes it
+   as a parameter and the theorems hold for every enumeration. *)
+Definition to_wide_rows (fn dn ln : list str) (t : list cell) : result table :=
+  let mn := attr_names t ++ dn ++ ln in
   bind (concat_result (map (wide_rows_of_cell (tri_is_inc t) mn fn) t)) drop_constant_scenario.
 
 (* long: one row per scenario index and field of the cell; scenario is NaN for Python-number
@@ -380,8 +383,8 @@ Definition long_rows_of_cell (has_prev : bool) (mnames : list str) (c : cell) : 
               (c_field, TStr (fst fv)); (c_value, field_entry (Some (snd fv)) ndx)])
           (filter not_none (cvals c))) (seq 0 n))).
 
-Definition to_long_rows (t : list cell) : result table :=
-  let mn := meta_names t in
+Definition to_long_rows (dn ln : list str) (t : list cell) : result table :=
+  let mn := attr_names t ++ dn ++ ln in
   bind (concat_result (map (long_rows_of_cell (tri_is_inc t) mn) t)) drop_constant_scenario.
 
 (* ====================================================================================== *)
@@ -446,3 +449,51 @@ Definition frame_spec_ok (sp : frame_spec) : bool :=
   && list_eqb str_eqb (fs_wide_sort sp) [c_scenario] && list_eqb str_eqb (fs_long_sort sp) [c_scenario]
   (* each metadata column feeds the attribute of the same name *)
   && list_eqb (pair_eqb str_eqb str_eqb) (fs_meta_attr sp) (map (fun c => (c, c)) meta_col_names).
+
+(* ====================================================================================== *)
+(** * The hypotheses of the round-trip theorems, as Boolean functions (evaluated on every
+      correspondence case so that the generated stream provably lies inside them) *)
+Definition scalar_cell (c : cell) : bool := forallb (fun kv => is_scalar (snd kv)) (cvals c).
+Definition sample_cell (c : cell) : bool :=
+  match cvals c with
+  | (_, VArr _ xs) :: _ =>
+      (2 <=? List.length xs)%nat
+      && forallb (fun kv => match snd kv with
+                            | VArr _ ys => Nat.eqb (List.length ys) (List.length xs)
+                            | _ => false
+                            end) (cvals c)
+  | _ => false
+  end.
+Definition mval_ok (v : mval) : bool := match v with MStr _ | MNum _ => true | _ => false end.
+Definition meta_ok (m : meta) : bool :=
+  match risk_basis m with Some _ => true | None => false end
+  && forallb (fun kv => mval_ok (snd kv)) (details m) && forallb (fun kv => mval_ok (snd kv)) (loss_details m).
+(* the key list `ks` lists its names in the order of `universe` *)
+Definition ordered_in (universe ks : list str) : bool :=
+  list_eqb str_eqb ks (filter (fun k => mem k ks) universe).
+Fixpoint nodup_b {A} (eqb : A -> A -> bool) (l : list A) : bool :=
+  match l with [] => true | a :: r => negb (existsb (eqb a) r) && nodup_b eqb r end.
+Definition reserved_names : list str :=
+  [c_ps; c_pe; c_ev; c_prev] ++ meta_col_names ++ [c_scenario; c_field; c_value].
+Definition names_ok (fn dn ln : list str) : bool :=
+  nodup_b str_eqb (reserved_names ++ fn ++ dn ++ ln).
+(* coordinates + metadata as the round trip sees them *)
+Definition same_coords (a b : cell) : bool :=
+  (ps a =? ps b) && (pe a =? pe b) && (ev a =? ev b) && opt_eqb Z.eqb (prev a) (prev b)
+  && meta_seqb (fl_meta (cmeta a)) (fl_meta (cmeta b)).
+Definition cell_shape_ok (fn dn ln : list str) (c : cell) : bool :=
+  negb (match cvals c with [] => true | _ => false end)
+  && nodup_b str_eqb (keys (cvals c))
+  && nodup_b str_eqb (keys (details (cmeta c))) && nodup_b str_eqb (keys (loss_details (cmeta c)))
+  && meta_ok (cmeta c)
+  && ordered_in fn (keys (cvals c))
+  && ordered_in dn (keys (details (cmeta c)))
+  && ordered_in ln (keys (loss_details (cmeta c))).
+Definition cum_ok (c : cell) : bool :=
+  match ckind c, prev c with KCum, None => scalar_cell c || sample_cell c | _, _ => false end.
+Definition inc_ok (c : cell) : bool :=
+  match ckind c, prev c with KInc, Some _ => scalar_cell c | _, _ => false end.
+Definition frame_hyps (fn dn ln : list str) (t : list cell) : bool :=
+  negb (match t with [] => true | _ => false end)
+  && names_ok fn dn ln && forallb (cell_shape_ok fn dn ln) t && nodup_b same_coords t
+  && (forallb cum_ok t || forallb inc_ok t).
